@@ -82,7 +82,8 @@ def run(ctx):
             rules = policy.Rules.from_dict(rules_in)
             dump = str(rules)
             parsed_dump = json.loads(dump)
-            rules2 = policy.Rules.load(dump)
+            # (load_json is the older public name of the same loader)
+            rules2 = policy.Rules.load(dump) if ctx.rng.random() < 0.7 else policy.Rules.load_json(dump)
             e1 = pc.enforcer_for({})
             e1.set_rules(rules, use_conf=False)
             e2 = pc.enforcer_for({})
@@ -158,11 +159,15 @@ def run(ctx):
         tb = ta if ctx.rng.random() < 0.5 else lang.random_tree(ctx.rng, ctx.rng.choice([1, 2, 3, 5]), nl)
         xa = lang.render(lang.tree_tokens(ta, ctx.rng), ctx.rng, lenv.text)
         xb = lang.render(lang.tree_tokens(tb, ctx.rng), ctx.rng, lenv.text)
-        ra, rb = policy.RuleDefault('p:x', xa), policy.RuleDefault('p:x', xb)
-        cases.append({'kind': 'eq', 'want': 'c15', 'eq': 1 if ra == rb else 0,
-                      'tableA': pc.check_table(ra.check, leaves, lenv), 'tableB': pc.check_table(rb.check, leaves, lenv),
-                      '_a': xa, '_b': xb})
-        n_eq += cases[-1]['eq']
+        try:
+            ra, rb = policy.RuleDefault('p:x', xa), policy.RuleDefault('p:x', xb)
+            cases.append({'kind': 'eq', 'want': 'c15', 'eq': 1 if ra == rb else 0,
+                          'tableA': pc.check_table(ra.check, leaves, lenv), 'tableB': pc.check_table(rb.check, leaves, lenv),
+                          '_a': xa, '_b': xb})
+            n_eq += cases[-1]['eq']
+        except Exception as ex:       # building or evaluating a parsed rule raised: an observation, judged like a failed dump
+            cases.append({'kind': 'dump', 'want': 'c15', 'raised': 1, 'nleaves': nl, 'present': 0, 'dumped': [], 'table': [],
+                          'table2': [], '_rules': {'a': xa, 'b': xb}, '_exc': '%s: %s' % (type(ex).__name__, ex)})
     bad = pc.judge(ctx, cases)
     for c in bad:
         if c['kind'] == 'dump':
